@@ -12,6 +12,7 @@ import (
 	"io"
 	"os"
 	"os/exec"
+	"path/filepath"
 	"runtime/debug"
 	"sort"
 	"strconv"
@@ -46,6 +47,7 @@ func main() {
 	deadline := fs.Int64("deadline", 0, "")
 	workers := fs.Int("workers", 0, "")
 	verbose := fs.Bool("v", false, "")
+	claims := fs.String("claims", "", "")
 	arg := os.Args[2]
 	fs.Parse(os.Args[3:])
 	seed, _ := strconv.ParseInt(os.Getenv("VERIF_SEED"), 10, 64)
@@ -59,6 +61,13 @@ func main() {
 		c := &fw.Ctx{Tier: *tier, Seed: seed, Shard: *shard, NShards: *nshards, Res: fw.NewResult(), Verbose: *verbose}
 		if *deadline > 0 {
 			c.Deadline = time.Unix(*deadline, 0)
+		}
+		if *claims != "" {
+			cl, err := fw.OpenClaims(*claims)
+			if err != nil {
+				die(2, "HARNESS-ERROR claims: %v", err)
+			}
+			c.Claims = cl
 		}
 		runGuarded(ck, c)
 		out := os.NewFile(3, "result")
@@ -122,6 +131,13 @@ func main() {
 				n = 16
 			}
 			c.NShards = n
+			cf, err := os.CreateTemp(filepath.Dir(os.Args[0]), "claims-")
+			if err != nil {
+				die(2, "HARNESS-ERROR %v", err)
+			}
+			cf.Close()
+			defer os.Remove(cf.Name())
+			claimsPath := cf.Name()
 			var mu sync.Mutex
 			var wg sync.WaitGroup
 			failed := ""
@@ -129,7 +145,7 @@ func main() {
 				wg.Add(1)
 				go func(k int) {
 					defer wg.Done()
-					r, err := runWorker(arg, *tier, k, n, dl, *verbose)
+					r, err := runWorker(arg, *tier, k, n, dl, *verbose, ck.Procs, claimsPath)
 					mu.Lock()
 					defer mu.Unlock()
 					if err != nil {
@@ -235,17 +251,20 @@ func runGuarded(ck *fw.Check, c *fw.Ctx) {
 	ck.Run(c)
 }
 
-func runWorker(id, tier string, k, n int, dl time.Time, verbose bool) (*fw.Result, error) {
+func runWorker(id, tier string, k, n int, dl time.Time, verbose bool, procs int, claims string) (*fw.Result, error) {
+	if procs == 0 {
+		procs = 2
+	}
 	pr, pw, err := os.Pipe()
 	if err != nil {
 		return nil, err
 	}
-	args := []string{"worker", id, "--tier", tier, "--shard", strconv.Itoa(k), "--nshards", strconv.Itoa(n), "--deadline", strconv.FormatInt(dl.Unix(), 10)}
+	args := []string{"worker", id, "--tier", tier, fmt.Sprintf("-v=%v", verbose), "--claims", claims, "--shard", strconv.Itoa(k), "--nshards", strconv.Itoa(n), "--deadline", strconv.FormatInt(dl.Unix(), 10)}
 	cmd := exec.Command(os.Args[0], args...)
 	cmd.ExtraFiles = []*os.File{pw}
 	cmd.Stderr = os.Stderr
 	cmd.Stdout = io.Discard
-	cmd.Env = append(os.Environ(), "GOMAXPROCS=2")
+	cmd.Env = append(os.Environ(), "GOMAXPROCS="+strconv.Itoa(procs))
 	if err := cmd.Start(); err != nil {
 		return nil, err
 	}
